@@ -211,10 +211,40 @@ def _fit_fresh(cls, data, cfg="default", rot_kw=None):
     return zoo.fit(base, copy.deepcopy(data), "time", kw, weights=copy.deepcopy(w))
 
 
+_NOT_ACCESSORS = {
+    "fit", "transform", "inverse_transform", "compute", "serialize", "deserialize", "save", "load", "get_params",
+    "get_serialization_attrs", "fit_transform", "predict", "components", "scores", "check_needed_module",
+    "get_metadata_routing", "set_fit_request", "set_transform_request", "set_params",
+}  # fmt: skip
+
+
+def _accessors(m):
+    """every public method of the model that can be called without arguments (explained_variance_ratio,
+    components_amplitude, homogeneous_patterns, correlation_coefficients_X, decorrelation_time, periods, ...),
+    found by introspection: derived quantities are where a forgotten cache would live"""
+    import inspect
+
+    out = []
+    for k, v in inspect.getmembers(type(m), predicate=inspect.isfunction):
+        if k.startswith("_") or k in _NOT_ACCESSORS:
+            continue
+        ps = list(inspect.signature(v).parameters.values())[1:]
+        if any(p.default is inspect._empty and p.kind not in (p.VAR_KEYWORD, p.VAR_POSITIONAL) for p in ps):
+            continue
+        out.append(k)
+    return sorted(out)
+
+
 def _Q(f, data, with_transform=True):
     """Answers of a fitted facade -> {name: DataArray/np}"""
     out = {}
     m = f.model
+    for acc in _accessors(m):
+        try:
+            r = getattr(m, acc)()
+            out[f"acc:{acc}"] = list(r) if isinstance(r, tuple) else r
+        except Exception as e:  # an answer too: fresh and aged object must agree
+            out[f"acc:{acc}"] = "raises " + type(e).__name__
     for i, c in enumerate(f.components()):
         out[f"components[{i}]"] = c
     sc = f.scores()
